@@ -456,6 +456,39 @@ func TestCheck(t *testing.T) {
 			plans = append(plans, plan{g, "gc"})
 		}
 	}
+	if os.Getenv("C02_PAGES") == "" {
+		// epoch plan: a committee-changing block followed by a tail of empty blocks that crosses the
+		// next committee epoch boundary (multi family: 6 blocks), the node dying right after a single
+		// flush at each boundary: what a restarted node recomputes at the epoch end (in-memory
+		// election state) must equal what the uninterrupted reference computed.
+		for _, f := range chainx.Families() {
+			if f.Name != "multi" && !(r.Thorough() && f.Name == "multi-srih") {
+				continue
+			}
+			enames := []string{"vote1", "unregister1", "empty"}
+			sc, err := chainx.NewScenario(f, 3, chainx.TplByName(enames...)) // pad 3: the first history block is the first block of an epoch
+			if err != nil {
+				fmt.Println("CHECK-ERROR: preamble:", f.Name, err)
+				os.Exit(3)
+			}
+			var hs [][]int
+			for _, h := range sc.BuildTree(1, func(n int, f func(int)) { r.Parallel(n, f) }) {
+				cur, ok := h, true
+				for t := 0; t < 7 && ok; t++ {
+					cur = append(append([]int{}, cur...), 2)
+					ok = sc.Grow(cur) == nil
+				}
+				if ok {
+					hs = append(hs, cur)
+				}
+			}
+			if len(hs) == 0 {
+				fmt.Println("CHECK-ERROR: epoch plan: no history built for", f.Name)
+				os.Exit(3)
+			}
+			plans = append(plans, plan{&env{r: r, sc: sc, hs: hs}, "epoch"})
+		}
+	}
 	var crashes, runs vk.Counter
 	type job struct {
 		p       plan
@@ -467,8 +500,14 @@ func TestCheck(t *testing.T) {
 	}
 	var jobs []job
 	for _, p := range plans {
+		if only := os.Getenv("C02_ONLY"); only != "" && only != p.kind {
+			continue // development aid: run one plan kind
+		}
 		nPre := len(p.e.sc.Preamble)
-		total := nPre + depth
+		if len(p.e.hs) == 0 {
+			continue
+		}
+		total := nPre + len(p.e.hs[0])
 		all := uint64(1)<<uint(total) - 1
 		var masks []uint64
 		switch p.kind {
@@ -483,6 +522,11 @@ func TestCheck(t *testing.T) {
 				for s := uint64(0); s < 1<<uint(depth+2); s++ {
 					masks = append(masks, (uint64(1)<<lo-1)|s<<lo)
 				}
+			}
+		case "epoch":
+			masks = []uint64{0, all}
+			for k := nPre - 1; k < total; k++ {
+				masks = append(masks, 1<<uint(k)) // a single flush at each boundary from the last preamble block on
 			}
 		case "gc":
 			masks = []uint64{all, 0xAAAAAAAAAAAAAAAA&all | 1<<uint(total-1)}
@@ -558,7 +602,7 @@ func TestCheck(t *testing.T) {
 		"runs":                int(runs.Get()),
 		"block_alphabet":      names,
 		"history_depth":       depth,
-		"scenarios":           "persist (flush schedules at block boundaries AND inside AddBlock after its header part, hook H5), gc (RemoveUntraceableBlocks, GC after every flush), reset (every target height, both orders of the persister/direct-deletion race)",
+		"scenarios":           "epoch (multi family: committee-changing block + 7 empty blocks across the epoch boundary, single flush at each boundary), persist (flush schedules at block boundaries AND inside AddBlock after its header part, hook H5), gc (RemoveUntraceableBlocks, GC after every flush), reset (every target height, both orders of the persister/direct-deletion race)",
 	}, []string{
 		"one PutChangeSet / one SeekGC pass is atomic and durable (backend trusted, as the property states)",
 		"batches of the reset's background persister may merge differently from run to run (coarser merges only remove crash points); the order of the last stage batch and the direct deletion is forced both ways",
